@@ -74,6 +74,55 @@ func init() {
 			return n.method("Err")(g, fr, []value{n})
 		},
 
+		// the module's two reflection helpers, over interpreter values
+		"github.com/tychoish/fun/internal.IsPtr": func(g *G, fr *frame, a []value) value {
+			it := a[0].(iface)
+			if it.t == nil {
+				return false
+			}
+			_, ok := it.t.Underlying().(*types.Pointer)
+			return ok
+		},
+		"github.com/tychoish/fun/internal.IsNil": func(g *G, fr *frame, a []value) value {
+			it := a[0].(iface)
+			if it.t == nil {
+				return true
+			}
+			switch it.t.Underlying().(type) {
+			case *types.Pointer:
+				p, ok := it.v.(*value)
+				return ok && p == nil
+			case *types.Slice:
+				sl, ok := it.v.([]value)
+				return ok && sl == nil
+			case *types.Map:
+				switch m := it.v.(type) {
+				case *omap:
+					return m == nil
+				case nil:
+					return true
+				}
+				return false
+			case *types.Chan:
+				c, ok := it.v.(*Chan)
+				return ok && c == nil
+			case *types.Signature:
+				switch f := it.v.(type) {
+				case *closure:
+					return f == nil
+				case *ssa.Function:
+					return f == nil
+				case nil:
+					return true
+				}
+				return false
+			case *types.Interface:
+				inner, ok := it.v.(iface)
+				return ok && inner.t == nil
+			}
+			return false
+		},
+
 		// errors
 		"errors.Is": extErrorsIs,
 		"errors.As": extErrorsAs,
@@ -404,7 +453,12 @@ func extSyncMap(op string) nativeFn {
 
 // ---- sync.Pool
 
-type poolM struct{ items []value }
+// Put(x) synchronizes before the Get that returns x (Go memory model): each
+// pooled item carries the releasing goroutine's clock.
+type poolM struct {
+	items []value
+	rel   [][]int
+}
 
 func extPoolGet(g *G, fr *frame, a []value) value {
 	p := nonNil(g, a[0])
@@ -413,6 +467,10 @@ func extPoolGet(g *G, fr *frame, a []value) value {
 	if n := len(pm.items); n > 0 {
 		v := pm.items[n-1]
 		pm.items = pm.items[:n-1]
+		if g.ex.mon != nil {
+			g.ex.mon.acquireVC(g, pm.rel[n-1])
+		}
+		pm.rel = pm.rel[:n-1]
 		return v
 	}
 	// struct Pool { noCopy; local; localSize; victim; victimSize; New func() any }
@@ -432,6 +490,11 @@ func extPoolPut(g *G, fr *frame, a []value) value {
 		return nil
 	}
 	pm.items = append(pm.items, a[1])
+	var vc []int
+	if g.ex.mon != nil {
+		vc = g.ex.mon.releaseVC(g)
+	}
+	pm.rel = append(pm.rel, vc)
 	return nil
 }
 
